@@ -51,6 +51,7 @@ type spec struct {
 	QuickS   int    `json:"quick_budget_s"` // wall budget of the worker loop, seconds
 	ThoroS   int    `json:"thorough_budget_s"`
 	Workers  int    `json:"workers,omitempty"` // 0 = 16
+	Secondary bool  `json:"secondary,omitempty"` // an additional engine for a property that another engine serves first
 	Custom   func(s *spec, tier string, seed uint64, scratch string) int `json:"-"`
 	CustomName string `json:"custom,omitempty"`
 	RuleText string `json:"rule"`
@@ -89,7 +90,12 @@ func loadSpecs() {
 			specs = append(specs, s)
 		}
 	}
-	sort.SliceStable(specs, func(i, j int) bool { return specs[i].Prop < specs[j].Prop })
+	sort.SliceStable(specs, func(i, j int) bool {
+		if specs[i].Prop != specs[j].Prop {
+			return specs[i].Prop < specs[j].Prop
+		}
+		return !specs[i].Secondary && specs[j].Secondary
+	})
 }
 
 // enabledSpecs are the specs of the engines listed in /verif/sim/ENABLED (one
@@ -541,6 +547,43 @@ func runSim(s *spec, tier string, seed uint64, scratch string) int {
 	return 0
 }
 
+// mergeEvidence folds the evidence and replays a secondary engine wrote under
+// from/ into the property's evidence file under to/.
+func mergeEvidence(to, from string, x *spec) {
+	pa := filepath.Join(to, "evidence", x.Prop+".json")
+	pb := filepath.Join(from, "evidence", x.Prop+".json")
+	var a, b map[string]interface{}
+	ba, err1 := os.ReadFile(pa)
+	bb, err2 := os.ReadFile(pb)
+	if err1 != nil || err2 != nil || json.Unmarshal(ba, &a) != nil || json.Unmarshal(bb, &b) != nil {
+		return
+	}
+	ca, _ := a["coverage"].(map[string]interface{})
+	cb, _ := b["coverage"].(map[string]interface{})
+	if ca == nil || cb == nil {
+		return
+	}
+	num := func(m map[string]interface{}, k string) float64 { f, _ := m[k].(float64); return f }
+	ca["evaluations"] = int64(num(ca, "evaluations") + num(cb, "evaluations"))
+	ca["distinct_nontrivial"] = int64(num(ca, "distinct_nontrivial") + num(cb, "distinct_nontrivial"))
+	if sa, ok := ca["samples"].([]interface{}); ok {
+		if sb, ok := cb["samples"].([]interface{}); ok && len(sb) > 0 {
+			ca["samples"] = append(sa, sb[0])
+		}
+	}
+	ca["rule"] = fmt.Sprint(ca["rule"]) + " SECOND ENGINE (" + x.Engine + "): " + fmt.Sprint(cb["rule"])
+	ca["second_engine"] = map[string]interface{}{"engine": cb["engine"], "evaluations": cb["evaluations"], "distinct_nontrivial": cb["distinct_nontrivial"],
+		"faults_fired": cb["faults_fired"], "probes_hit": cb["probes_hit"], "real_components": cb["real_components"], "stubbed_components": cb["stubbed_components"], "runs_per_hour": cb["runs_per_hour"]}
+	a["violations"] = int64(num(a, "violations") + num(b, "violations"))
+	a["wall_s"] = round2(num(a, "wall_s") + num(b, "wall_s"))
+	out, _ := json.MarshalIndent(a, "", " ")
+	os.WriteFile(pa, out, 0644)
+	reps, _ := filepath.Glob(filepath.Join(from, "replays", "*.json"))
+	for _, r := range reps {
+		copyFile(r, filepath.Join(to, "replays", filepath.Base(r)))
+	}
+}
+
 func round2(f float64) float64 { return float64(int64(f*100)) / 100 }
 
 func firstLine(s string) string {
@@ -671,11 +714,38 @@ func main() {
 			}
 			seed = x
 		}
-		if s.Custom != nil {
-			code = s.Custom(s, tier, seed, scratch)
-			return
+		// every spec registered for the property is run (a property may be
+		// served by more than one engine); the first writes the evidence file,
+		// the others are merged into it
+		var all []*spec
+		for _, x := range specs {
+			if x.Prop == s.Prop {
+				all = append(all, x)
+			}
 		}
-		code = runSim(s, tier, seed, scratch)
+		finalOut := outDir
+		code = 0
+		for i, x := range all {
+			sub := scratch
+			if i > 0 {
+				sub = filepath.Join(scratch, fmt.Sprintf("engine%d", i))
+				os.MkdirAll(sub, 0755)
+				outDir = filepath.Join(sub, "out")
+			}
+			var rc int
+			if x.Custom != nil {
+				rc = x.Custom(x, tier, seed, sub)
+			} else {
+				rc = runSim(x, tier, seed, sub)
+			}
+			if i > 0 {
+				mergeEvidence(finalOut, outDir, x)
+				outDir = finalOut
+			}
+			if rc > code {
+				code = rc
+			}
+		}
 	}()
 	os.Exit(code)
 }
